@@ -5,19 +5,24 @@
 (* The ENVIRONMENT (client + backend handler + service configuration) is   *)
 (* chosen step by step by the Choose* actions -- TLC enumerates every      *)
 (* combination within the constants of the configuration file.  The        *)
-(* TRANSCODER then runs as a deterministic sequence of named actions, one  *)
-(* per critical section of the implementation (classifyRequest,            *)
-(* resolveMethod, validate, the pass-through test in ServeHTTP,            *)
-(* operation.handle, the reader adapters, responseWriter.WriteHeader, the  *)
-(* writer adapters, responseWriter.close).  When it is done the predicted  *)
-(* boundary observation is judged by the oracle of Wire.tla (invariant     *)
-(* OracleHolds) and the scenario is emitted as JSON for replay against the *)
-(* real code.                                                              *)
+(* TRANSCODER (module Transcoder) then produces its boundary observation,  *)
+(* which is judged by the oracle of Wire.tla (invariant OracleHolds), and  *)
+(* the scenario is emitted as JSON for replay against the real code.       *)
+(*                                                                         *)
+(* Mode selects which dimensions of the environment vary:                  *)
+(*   matrix   protocol x codec x compression x per-frame flags x shapes    *)
+(*   errors   handler errors (code, message class, details, position),     *)
+(*            bare HTTP failures                                           *)
+(*   faults   truncation / malformed envelopes / corrupt payloads on       *)
+(*            either side                                                  *)
+(*   reject   the rejection catalogue of validate()                        *)
+(*   headers  application headers and trailers                             *)
+(*   hostile  backend behaviour that violates its own protocol             *)
 (***************************************************************************)
 EXTENDS Transcoder, Known, Json
 
 CONSTANTS
-    Mode,           \* which dimensions vary: "matrix" "errors" "faults" "reject" "headers"
+    Mode,
     ProtoSets,      \* set of sequences of target protocols
     CodecSeqs,      \* set of sequences of target codecs (first = preferred)
     CompSeqs,       \* set of sequences of target compressions
@@ -25,15 +30,16 @@ CONSTANTS
     Methods,
     MaxMsgs,        \* messages per direction in streams
     EndCodes,       \* RPC codes the handler may end with
+    HttpStatuses,   \* bare HTTP failures (errors mode)
+    FlagValues,     \* invalid envelope flag bytes (faults mode)
     Emit            \* TRUE: print every completed scenario as JSON
 
 VARIABLES scn,      \* the environment's script (exactly the JSON the harness replays)
           ph,       \* phase of scenario construction / transcoder execution
-          m         \* the transcoder model's state
+          m         \* the transcoder model's predicted observation
 
 vars == <<scn, ph, m>>
 
-NoFrames == <<>>
 DefaultEnd == [how |-> "normal", code |-> 0, msg |-> "empty", details |-> 0, trl |-> <<>>, style |-> "declared"]
 DefaultHd == [reads |-> <<>>, frames |-> <<>>, comp |-> "", status |-> 200, ct |-> "expected", clen |-> "",
               end |-> DefaultEnd, errat |-> 0, hdrs |-> <<>>, writes |-> <<>>, flush |-> FALSE,
@@ -55,6 +61,8 @@ FrameSeqs(n, base, zok) ==
 MajorFor(form, method) ==
     IF form = "grpc" \/ MethodInfo(method).stream = "bidi" THEN 2 ELSE 1
 
+Srv == Negotiate(scn)
+
 (***************************************************************************)
 (* Environment: scenario construction.                                     *)
 (***************************************************************************)
@@ -67,7 +75,7 @@ ChooseCfg ==
     /\ ph = "cfg"
     /\ \E ps \in ProtoSets, cs \in CodecSeqs, zs \in CompSeqs :
          scn' = [scn EXCEPT !.cfg.protos = ps, !.cfg.codecs = cs, !.cfg.comps = zs]
-    /\ ph' = "client"
+    /\ ph' = IF Mode = "reject" THEN "reject" ELSE "client"
     /\ UNCHANGED m
 
 \* a REST client of this family can only call methods whose rule carries the whole message in the body
@@ -79,8 +87,8 @@ ChooseClient ==
          /\ FormCarries(f, MethodInfo(meth).stream)
          /\ f = "rest" => (c = "json" /\ RestCallable(meth))
          /\ f = "connect_get" => MethodInfo(meth).nse
-         \* a REST-only target needs a rule for the method, with the whole message in the body
-         /\ "rest" \in Range(scn.cfg.protos) /\ SrvProto(scn.cfg, ProtoOf(f)) = "rest" => RestCallable(meth)
+         \* a REST target needs a rule for the method, with the whole message in the body
+         /\ SrvProto(scn.cfg, ProtoOf(f)) = "rest" => RestCallable(meth)
          /\ scn' = [scn EXCEPT !.cl.form = f, !.cl.codec = c, !.cl.comp = z, !.cl.method = meth,
                                !.cl.major = MajorFor(f, meth),
                                !.cl.accept = IF z = "" THEN <<>> ELSE <<z>>]
@@ -91,35 +99,172 @@ ChooseReqFrames ==
     /\ ph = "reqframes"
     /\ LET st == MethodInfo(scn.cl.method).stream
            counts == IF st \in {"unary", "server"} THEN {1} ELSE 0..MaxMsgs
-           zok == scn.cl.comp # "" /\ Enveloped(scn.cl.form)
+           zok == scn.cl.comp # "" /\ Enveloped(scn.cl.form) /\ Mode \in {"matrix", "faults"}
        IN \E n \in counts : \E fs \in FrameSeqs(n, 0, zok) :
             scn' = [scn EXCEPT !.cl.frames =
-                      IF Enveloped(scn.cl.form) THEN fs
+                      IF Enveloped(scn.cl.form) /\ zok THEN fs
                       ELSE [i \in DOMAIN fs |-> [fs[i] EXCEPT !.z = scn.cl.comp # ""]]]
+    /\ ph' = IF Mode = "faults" THEN "clientfault" ELSE IF Mode = "headers" THEN "reqhdrs" ELSE "handler"
+    /\ UNCHANGED m
+
+\* ---- faults mode: the client side
+Cuts == {"env:1", "env:4", "pay:0", "pay:1", "clean:2", "clean:6"}
+FrameFaults(z) == {"flags:" \o ToString(v) : v \in FlagValues} \cup {"undecodable", "declover", "declunder"}
+                  \cup (IF z THEN {"gzcorrupt"} ELSE {})
+
+ChooseClientFault ==
+    /\ ph = "clientfault"
+    /\ LET n == Len(scn.cl.frames) IN
+       \/ UNCHANGED scn                                              \* no client fault (a handler fault follows)
+       \/ /\ Enveloped(scn.cl.form) /\ n >= 1
+          /\ \E c \in Cuts : scn' = [scn EXCEPT !.cl.cut = c]
+       \/ /\ n >= 1
+          /\ \E ff \in FrameFaults(scn.cl.frames[n].z) :
+               /\ (~Enveloped(scn.cl.form) => ff \in {"undecodable", "gzcorrupt"})
+               /\ scn' = [scn EXCEPT !.cl.frames[n].fault = ff]
+       \/ /\ ~Enveloped(scn.cl.form) /\ n >= 1 /\ scn.cl.form # "connect_get"
+          /\ \E k \in {"over", "under"} : scn' = [scn EXCEPT !.cl.clen = k]
     /\ ph' = "handler"
     /\ UNCHANGED m
 
-HandlerComps == {""} \cup (IF scn.cl.comp = "" THEN {} ELSE {scn.cl.comp})
+\* ---- headers mode
+HeaderSets == {<<>>, <<"plain">>, <<"bin">>, <<"multi">>, <<"mixed", "plain">>, <<"plain", "bin", "multi", "mixed">>}
+
+ChooseReqHeaders ==
+    /\ ph = "reqhdrs"
+    /\ \E hs \in HeaderSets : scn' = [scn EXCEPT !.cl.hdrs = hs]
+    /\ ph' = "handler"
+    /\ UNCHANGED m
+
+\* ---- reject mode: the rejection catalogue (validate, resolveMethod, classifyRequest, handle)
+RejectClasses == PreValidationRejects \cup PostValidationRejects \cup {"unknownpath-handler"}
+
+\* a base request on which the rejection class can be expressed
+RejectBase(rej, f) ==
+    CASE rej \in {"multict", "unknownpath", "unknownpath-handler", "rpc-put", "badtimeout", "unknowncodec", "noflusher"} -> TRUE
+      [] rej \in {"connectver-noct-post", "connectq-post", "rpc-get-notnse"} -> f \in {"connect_post", "connect_get"}
+      [] rej \in {"restnoroute", "rest405"} -> f = "rest"
+      [] rej = "streamtype" -> f \in {"connect_post", "connect_stream", "rest"}
+      [] rej = "bidi-http1" -> f \in {"grpcweb", "connect_stream"}
+      [] rej = "grpc-http1" -> f = "grpc"
+      [] rej = "contentencoding" -> f \in {"grpc", "grpcweb", "connect_stream"}
+      [] rej = "unknowncomp" -> f # "connect_get"
+      [] rej = "restonly-norule" -> f # "rest"
+      [] rej = "leading-undecodable" -> f # "connect_get"
+      [] OTHER -> FALSE
+
+ChooseReject ==
+    /\ ph = "reject"
+    /\ \E rej \in RejectClasses, f \in ClientForms, c \in ClientCodecs :
+         /\ RejectBase(rej, f)
+         /\ f = "rest" => c = "json"
+         /\ rej = "unknowncodec" => f # "rest"
+         /\ rej = "noflusher" => ProtoOf(f) \notin Range(scn.cfg.protos)     \* a pass-through needs no Flusher
+         /\ rej = "restonly-norule" => scn.cfg.protos = <<"rest">>
+         /\ rej = "leading-undecodable" => (scn.cfg.protos = <<"rest">> /\ f # "rest")
+         /\ rej \notin {"restonly-norule", "leading-undecodable"} /\ f # "rest" => scn.cfg.protos # <<"rest">>
+         /\ LET meth == CASE rej = "streamtype" -> (IF f = "connect_stream" THEN "Plain" ELSE "CStream")
+                          [] rej = "bidi-http1" -> "Bidi"
+                          [] rej = "restonly-norule" -> "Plain"
+                          [] rej = "rpc-get-notnse" -> "Plain"
+                          [] f = "connect_get" -> "Query"
+                          [] f = "connect_stream" -> "CStream"
+                          [] OTHER -> "Post"
+                fr == IF rej = "leading-undecodable" THEN [Frame(1, FALSE) EXCEPT !.fault = "undecodable"] ELSE Frame(1, FALSE)
+            IN scn' = [scn EXCEPT !.cl.rej = rej, !.cl.form = f, !.cl.codec = c, !.cl.method = meth,
+                                  !.cl.major = IF rej \in {"bidi-http1", "grpc-http1"} THEN 1 ELSE MajorFor(f, meth),
+                                  !.cl.frames = <<fr>>,
+                                  !.cfg.unknown = (rej = "unknownpath-handler"),
+                                  !.hd.frames = <<Frame(2, FALSE)>>, !.hd.errat = 1]
+    /\ ph' = "run"
+    /\ UNCHANGED m
+
+\* ---- the backend handler's script
+HandlerComps == {""} \cup (IF scn.cl.comp = "" \/ Mode \notin {"matrix", "faults"} THEN {} ELSE {scn.cl.comp})
+MsgClasses == {"empty", "ascii", "pct", "nonascii", "ctl"}
 
 ChooseHandler ==
     /\ ph = "handler"
     /\ LET st == MethodInfo(scn.cl.method).stream
-           base == Len(scn.cl.frames) IN
-       \E code \in EndCodes, hc \in HandlerComps :
-         LET counts == IF st \in {"unary", "client"} THEN (IF code = 0 THEN {1} ELSE {0}) ELSE 0..MaxMsgs
-         IN \E n \in counts : \E fs \in FrameSeqs(n, base, hc # "") :
-              \E how \in (IF n = 0 /\ Mode = "errors" THEN {"normal", "trailersonly"} ELSE {"normal"}) :
-              \E mc \in (IF code # 0 /\ Mode = "errors" THEN {"empty", "ascii", "pct", "nonascii", "ctl"} ELSE {"ascii"}) :
-              \E nd \in (IF code # 0 /\ Mode = "errors" THEN 0..2 ELSE {0}) :
-                scn' = [scn EXCEPT !.hd.frames = fs, !.hd.comp = hc, !.hd.errat = n,
+           base == Len(scn.cl.frames)
+           codes == IF Mode \in {"errors", "headers"} THEN EndCodes ELSE {0} IN
+       \E code \in codes, hc \in HandlerComps :
+         LET counts == IF st \in {"unary", "client"} THEN (IF code = 0 THEN {1} ELSE {0})
+                       ELSE (IF Mode = "matrix" THEN 0..MaxMsgs ELSE {0, 1})
+         IN \E n \in counts : \E fs \in FrameSeqs(n, base, hc # "" /\ Enveloped(Srv.form)) :
+              \E how \in (IF n = 0 /\ Mode = "errors" /\ Srv.form \in {"grpc", "grpcweb"} THEN {"normal", "trailersonly"} ELSE {"normal"}) :
+              \E mc \in (IF code # 0 /\ Mode = "errors" THEN MsgClasses ELSE {"ascii"}) :
+              \E nd \in (IF code # 0 /\ Mode = "errors" THEN {0, 2} ELSE {0}) :
+                scn' = [scn EXCEPT !.hd.frames = [i \in DOMAIN fs |-> [fs[i] EXCEPT !.z = fs[i].z \/ (hc # "" /\ ~Enveloped(Srv.form))]],
+                                   !.hd.comp = hc, !.hd.errat = n,
                                    !.hd.end = [DefaultEnd EXCEPT !.code = code, !.how = how, !.msg = mc, !.details = nd]]
+    /\ ph' = CASE Mode = "faults" -> "handlerfault" [] Mode = "headers" -> "resphdrs"
+               [] Mode = "errors" -> "barehttp" [] Mode = "hostile" -> "hostile" [] OTHER -> "run"
+    /\ UNCHANGED m
+
+\* errors mode: alternatively the backend fails with a bare HTTP status
+ChooseBareHttp ==
+    /\ ph = "barehttp"
+    /\ \/ UNCHANGED scn
+       \/ /\ scn.hd.end.code = 1 /\ scn.hd.end.msg = "ascii" /\ scn.hd.end.details = 0 /\ scn.hd.end.how = "normal"
+          /\ \E st \in HttpStatuses :
+               scn' = [scn EXCEPT !.hd.end = [DefaultEnd EXCEPT !.how = "barehttp", !.code = 0], !.hd.status = st,
+                                  !.hd.frames = <<>>, !.hd.errat = 0]
+    /\ ph' = "run"
+    /\ UNCHANGED m
+
+\* faults mode: the handler side (only when the client side is clean)
+ChooseHandlerFault ==
+    /\ ph = "handlerfault"
+    /\ LET n == Len(scn.hd.frames)
+           se == Enveloped(Srv.form) IN
+       IF ClientFaulty(scn) THEN UNCHANGED scn
+       ELSE \/ /\ se /\ n >= 1
+               /\ \E ft \in {"cutenv:2", "cutpay:1", "cutpay:0"} : scn' = [scn EXCEPT !.hd.fault = ft]
+            \* the handler stops inside a frame but still ends the RPC with an OK status (gRPC trailers)
+            \/ /\ Srv.form = "grpc" /\ n >= 1
+               /\ \E ft \in {"cutenvok:2", "cutpayok:1", "cutpayok:0"} : scn' = [scn EXCEPT !.hd.fault = ft]
+            \/ /\ n >= 1
+               /\ \E ff \in FrameFaults(scn.hd.frames[n].z) :
+                    /\ (~se => ff \in {"undecodable", "gzcorrupt"})
+                    /\ scn' = [scn EXCEPT !.hd.frames[n].fault = ff]
+            \/ /\ se
+               /\ scn' = [scn EXCEPT !.hd.end.how = "missing"]
+            \/ /\ Srv.form \in {"connect_stream"} /\ scn' = [scn EXCEPT !.hd.fault = "badendjson"]
+            \/ /\ Srv.form \in {"grpcweb"} /\ scn' = [scn EXCEPT !.hd.fault = "badtrailerframe"]
+            \/ /\ n >= 1 /\ ~se
+               /\ \E k \in {"short", "long"} : scn' = [scn EXCEPT !.hd.clen = k]
+    /\ ph' = "run"
+    /\ UNCHANGED m
+
+ChooseRespHeaders ==
+    /\ ph = "resphdrs"
+    /\ \E hs \in HeaderSets, ts \in HeaderSets, style \in {"declared", "prefixed"} :
+         /\ (style = "prefixed" => Srv.form = "grpc")
+         /\ (Srv.proto = "rest" \/ scn.cl.form = "rest" => ts = <<>>)   \* REST has no trailer position (DESIGN: C05 scope note)
+         /\ Len(hs) <= 2 \/ Len(ts) <= 1
+         /\ scn' = [scn EXCEPT !.hd.hdrs = hs, !.hd.end.trl = ts, !.hd.end.style = style]
+    /\ ph' = "run"
+    /\ UNCHANGED m
+
+\* hostile mode: the backend violates its own protocol in one way
+ChooseHostile ==
+    /\ ph = "hostile"
+    /\ \/ \E ct \in {"other", "none"} : scn' = [scn EXCEPT !.hd.ct = ct]
+       \/ scn' = [scn EXCEPT !.hd.comp = "unknown"]
+       \/ \E k \in {"garbage", "long", "short", "exact"} : scn' = [scn EXCEPT !.hd.clen = k]
+       \/ scn' = [scn EXCEPT !.hd.exit = "panic"]
+       \/ scn' = [scn EXCEPT !.hd.fault = "afterend"]
+       \/ scn' = [scn EXCEPT !.hd.noread = TRUE]
+       \/ \E w \in {<<1>>, <<0, 3>>, <<7>>} : scn' = [scn EXCEPT !.hd.writes = w, !.hd.flush = TRUE]
+       \/ \E code \in {17, 99, 65536} : scn' = [scn EXCEPT !.hd.end.code = code, !.hd.errat = 0]
+       \/ \E st \in {204, 304, 999} : scn' = [scn EXCEPT !.hd.end.how = "barehttp", !.hd.status = st]
     /\ ph' = "run"
     /\ UNCHANGED m
 
 (***************************************************************************)
-(* Transcoder model (implementation shaped).  Filled in by StreamModel.    *)
+(* Transcoder: ServeHTTP for this scenario (model in module Transcoder).   *)
 (***************************************************************************)
-\* ServeHTTP for this scenario: the model's predicted boundary observation
 Transcode ==
     /\ ph = "run"
     /\ m' = Predict(scn)
@@ -130,7 +275,9 @@ Done ==
     /\ ph = "done"
     /\ UNCHANGED vars
 
-Next == ChooseCfg \/ ChooseClient \/ ChooseReqFrames \/ ChooseHandler \/ Transcode \/ Done
+Next == \/ ChooseCfg \/ ChooseClient \/ ChooseReqFrames \/ ChooseClientFault \/ ChooseReqHeaders \/ ChooseReject
+        \/ ChooseHandler \/ ChooseBareHttp \/ ChooseHandlerFault \/ ChooseRespHeaders \/ ChooseHostile
+        \/ Transcode \/ Done
 
 Spec == Init /\ [][Next]_vars
 
@@ -142,5 +289,11 @@ EmitInv == (ph = "done" /\ Emit) => PrintT(ToJson(scn))
 (* known finding is modelled as built.                                     *)
 (***************************************************************************)
 Unexplained == {t \in Judge(scn, m) : KnownFinding(scn, m, t) = ""}
-OracleHolds == ph = "done" => Unexplained = {}
+OracleHolds == ph = "done" =>
+    IF Unexplained = {} THEN TRUE
+    ELSE PrintT(<<"UNEXPLAINED", Unexplained, scn.cl.form, scn.cl.method, scn.cfg.protos>>) /\ FALSE
+
+\* the scenario classes a configuration is meant to reach (vacuity guards, checked with -coverage)
+TypeOK == ph \in {"cfg", "client", "reqframes", "clientfault", "reqhdrs", "reject", "handler", "barehttp",
+                  "handlerfault", "resphdrs", "hostile", "run", "done"}
 =============================================================================
